@@ -201,6 +201,13 @@ func cintDefault(m map[string]any, k string, d int) int {
 
 func renderType(t map[string]any) string {
 	base := cstr(t, "base")
+	if base == "union" {
+		var ms []string
+		for _, m := range carr(t, "members") {
+			ms = append(ms, renderType(m.(map[string]any)))
+		}
+		return "type union { " + strings.Join(ms, " ") + " }"
+	}
 	var body strings.Builder
 	if strings.HasPrefix(base, "decimal64:") {
 		body.WriteString(" fraction-digits " + strings.TrimPrefix(base, "decimal64:") + ";")
@@ -528,6 +535,7 @@ func genYPathCase(r *Rng, tier string) Case {
 	// are present in most schemas
 	g.forData = r.Chance(65)
 	top := g.genKids(0, false)
+	unionize(r, top, map[string]bool{})
 	var names []string
 	allNames(top, &names)
 	junk := []string{"zz", "", "0", "true", " ", "é", "a/b", "<any child>"}
@@ -567,6 +575,44 @@ func genYPathCase(r *Rng, tier string) Case {
 		paths = append(paths, toAny(p))
 	}
 	return Case{"k": "ypath", "top": top, "paths": paths}
+}
+
+// unions of two members of one base with different restrictions: a value may be one of the later member only
+var unionMenus = []map[string]any{
+	{"base": "union", "members": []any{
+		map[string]any{"base": "uint8", "levels": lvRange([2]string{"1", "10"})},
+		map[string]any{"base": "uint8", "levels": lvRange([2]string{"20", "30"})}},
+		"valid": toAny([]string{"1", "10", "20", "25", "30"}), "invalid": toAny([]string{"0", "11", "15", "31", "x", ""})},
+	{"base": "union", "members": []any{
+		map[string]any{"base": "string", "levels": lvLength([2]string{"1", "2"})},
+		map[string]any{"base": "string", "levels": lvLength([2]string{"5", "5"})}},
+		"valid": toAny([]string{"a", "ab", "abcde", "ééééé"}), "invalid": toAny([]string{"", "abc", "abcd", "abcdef"})},
+	{"base": "union", "members": []any{
+		map[string]any{"base": "int8", "levels": lvRange([2]string{"-5", "-1"})},
+		map[string]any{"base": "boolean", "levels": []any{map[string]any{}}},
+		map[string]any{"base": "int8", "levels": lvRange([2]string{"100", "127"})}},
+		"valid": toAny([]string{"-5", "-1", "true", "false", "100", "127"}), "invalid": toAny([]string{"0", "99", "128", "TRUE", ""})},
+}
+
+func unionize(r *Rng, kids []any, keys map[string]bool) {
+	for _, k := range kids {
+		n := k.(map[string]any)
+		switch cstr(n, "k") {
+		case "leaf", "leaf-list":
+			if !keys[cstr(n, "n")] && r.Chance(20) {
+				n["type"] = deepCopy(pick(r, unionMenus))
+				delete(n, "dflt")
+			}
+		case "list":
+			ks := map[string]bool{}
+			for _, kn := range carr(n, "keys") {
+				ks[kn.(string)] = true
+			}
+			unionize(r, carr(n, "kids"), ks)
+		default:
+			unionize(r, carr(n, "kids"), map[string]bool{})
+		}
+	}
 }
 
 func genYPath(r *Rng, tier string, n int, emit func(Case)) {
